@@ -16,7 +16,8 @@
 (*            lengths, charged chunk by chunk                              *)
 (*   parse    parser + composer + constructor: KParse per token taken      *)
 (*            (none of them looks at more than the head of the queue);     *)
-(*            composer anchors dict: 1 per anchor                          *)
+(*            composer anchors dict: 1 per anchor, 1 per alias (the        *)
+(*            aliased node is returned, not copied and not walked)         *)
 (*   call     one unit per call of peek / prefix / forward / update /      *)
 (*            fetch_* / need_more_tokens / stale / save / remove ...       *)
 (*            (this is what sys.setprofile can see)                        *)
@@ -54,7 +55,7 @@
 (*   w word character      s space            n line break                 *)
 (*   h '#'                 [ ] ,  flow indicators ('{' '}' cost the same)   *)
 (*   : '-'  indicators (need a following blank in block context)           *)
-(*   q single quote        a '&' anchor indicator                          *)
+(*   q single quote        a '&' anchor indicator     r '*' alias indicator *)
 (*   d '---' at column 0 (one symbol, charged 3); elsewhere a word char    *)
 (*   0 the NUL the reader appends at end of stream                         *)
 (***************************************************************************)
@@ -69,7 +70,7 @@ CONSTANTS Block,     \* characters per stream read (reader.py: 4096)
           Stream,    \* BOOLEAN: the input is a stream read Block characters at a time; FALSE: a str (reader.py:72-75,
                      \* raw_buffer is None, the whole text is the buffer, update() returns at once)
           Exact,     \* BOOLEAN: carry work / consumed (bounded by MaxLen); FALSE: finite abstraction, any length
-          Variant,   \* "code" | "nokeylimit" | "nobuftrim" | "concat" | "anchorlist"
+          Variant,   \* "code" | "nokeylimit" | "nobuftrim" | "concat" | "anchorlist" | "aliaswalk"
           Sym        \* alphabet the environment chooses from (without "0")
 
 Mech == {"call", "reader", "keys", "queue", "build", "parse"}
@@ -213,7 +214,12 @@ AddIndent(r, column) ==                        \* add_indent + the token it make
   IF r.indent < column THEN [r EXCEPT !.indents = Append(@, r.indent), !.indent = column] ELSE r
 Added(r, column) == r.indent < column
 
-TokenDone(r) == Goto(AppendTok(r), "idle")     \* self.tokens.append(...); back in `while need_more_tokens()`
+\* Variant "aliaswalk" only: the size (in tokens) of the node that follows the last anchor - a scalar, or a flow collection
+\* up to its closing bracket - is what a per-alias walk of the aliased subtree would cost.
+Track(r) == IF Variant # "aliaswalk" \/ ~r.atrack THEN r
+            ELSE IF r.flow <= r.aflow THEN [r EXCEPT !.atrack = FALSE, !.asz = r.acnt + 1, !.acnt = 0]
+            ELSE [r EXCEPT !.acnt = @ + 1]
+TokenDone(r) == Goto(AppendTok(Track(r)), "idle")     \* self.tokens.append(...); back in `while need_more_tokens()`
 
 (***************************************************************************)
 (* the parser side: check_token / peek_token / get_token                   *)
@@ -264,7 +270,7 @@ FetchStreamEnd(r) ==
 FetchDocumentStart(r) ==                       \* '---': check_document_start = prefix(3) + peek(3); forward(3)
   LET r1 == RemoveKey(Unwind(Charge(Prefix(r, 1), "reader", 2), -1))
   IN  IF ~Ok(r1) THEN r1
-      ELSE TokenDone(Charge(Forward([r1 EXCEPT !.allow = FALSE, !.nanch = 0], 1), "reader", 2))
+      ELSE TokenDone(Charge(Forward([r1 EXCEPT !.allow = FALSE, !.nanch = 0, !.atrack = FALSE, !.asz = 0, !.acnt = 0], 1), "reader", 2))
 
 FetchFlowStart(r) ==
   IF r.flow = MaxFlow THEN Out(r)
@@ -300,7 +306,9 @@ FetchValue(r) ==
        IN  IF ~Ok(r2) THEN r2 ELSE TokenDone(Forward(r2, 1))
 
 FetchAnchor(r) ==
-  LET r1 == SaveKey(r) IN IF ~Ok(r1) THEN r1 ELSE StartScalar(Forward([r1 EXCEPT !.allow = FALSE], 1), "anchor")
+  LET r1 == SaveKey(r) IN IF ~Ok(r1) THEN r1 ELSE StartScalar(Forward([r1 EXCEPT !.allow = FALSE, !.isal = FALSE], 1), "anchor")
+FetchAlias(r) ==                               \* same scanner path: scan_anchor(AliasToken)
+  LET r1 == SaveKey(r) IN IF ~Ok(r1) THEN r1 ELSE StartScalar(Forward([r1 EXCEPT !.allow = FALSE, !.isal = TRUE], 1), "anchor")
 FetchQuoted(r) ==
   LET r1 == SaveKey(r) IN IF ~Ok(r1) THEN r1 ELSE StartScalar(Forward(Peek([r1 EXCEPT !.allow = FALSE], 0), 1), "quoted")
 FetchPlain(r) ==
@@ -320,6 +328,7 @@ Fetch(r0) ==
              [] c = "-" /\ nb -> FetchBlockEntry(Peek(r, 1))
              [] c = ":" /\ (r.flow > 0 \/ nb) -> FetchValue(IF r.flow > 0 THEN Call(r) ELSE Peek(r, 1))
              [] c = "a" -> FetchAnchor(Call(r))
+             [] c = "r" -> FetchAlias(Call(r))
              [] c = "q" -> FetchQuoted(Call(r))
              [] OTHER   -> FetchPlain(IF c \in {":", "-"} THEN Peek(Peek(r, 0), 1) ELSE Peek(r, 0))   \* check_plain
 
@@ -415,7 +424,13 @@ ScanAnchor(r) ==
   ELSE LET r1 == Peek(Forward(Prefix(Peek(r, r.rl), r.rl), r.rl), 0)
            \* composer: `anchor in self.anchors`, self.anchors[anchor] = node - a dict; the variant scans a list
            look == IF Variant = "anchorlist" THEN 1 + r.nanch ELSE 1
-       IN  TokenDone(Charge([r1 EXCEPT !.rl = 0, !.nanch = IF Variant = "anchorlist" THEN @ + 1 ELSE @], "parse", look))
+           \* composer, alias: `self.anchors[anchor]`, one dict lookup, the node is shared, never walked; the variant
+           \* walks the aliased subtree for every alias (a size / expansion guard without a memo)
+           walk == IF Variant = "aliaswalk" THEN 1 + r.asz ELSE 1
+       IN  IF r.isal THEN TokenDone(Charge([r1 EXCEPT !.rl = 0], "parse", walk))
+           ELSE LET r2 == TokenDone(Charge([r1 EXCEPT !.rl = 0, !.nanch = IF Variant = "anchorlist" THEN @ + 1 ELSE @],
+                                           "parse", look))
+                IN  IF Variant = "aliaswalk" THEN [r2 EXCEPT !.atrack = TRUE, !.aflow = r2.flow, !.acnt = 0] ELSE r2
 
 (***************************************************************************)
 (* the machine                                                             *)
@@ -475,6 +490,7 @@ Init ==
           qlen |-> 1,                           \* STREAM-START is queued by Scanner.__init__
           done |-> FALSE, flow |-> 0, indent |-> -1, indents |-> <<>>, allow |-> TRUE,
           keys |-> [lv \in Levels |-> NoKey], rl |-> 0, sl |-> 0, vlen |-> 0, nanch |-> 0, c |-> Z, fw |-> 0,
+          isal |-> FALSE, atrack |-> FALSE, aflow |-> 0, acnt |-> 0, asz |-> 0,
           la |-> <<>>, ok |-> TRUE]
   /\ fuel = FuelCap /\ work = Z /\ consumed = 0
 
@@ -489,6 +505,7 @@ QueueBound  == m.qlen <= QMax                                        \* len(self
 KeysBound   == Cardinality(KeysOn(m)) <= KMax /\ \A lv \in KeysOn(m) : lv <= m.flow
 BufferBound == m.blen <= BufMax /\ m.ptr <= m.blen                   \* len(self.buffer) <= Block + lookahead
 LookBound   == Len(la) <= MaxRun + 2
+AliasBounded == m.asz <= 10 /\ m.acnt <= 10                          \* CONSTRAINT of the "aliaswalk" negative control only
 IndentBound == Len(m.indents) <= MaxCol + 1
 (* invariants: cost *)
 StepCost  == m.ok                                                    \* every action is O(1) in the input length
